@@ -552,8 +552,8 @@ class Cell(Numbered_MCNP_Object):
             else:
                 self._material = None
         # only start new containers once nothing can fail before they are refilled
-        self._surfaces = Surfaces()
-        self._complements = Cells()
+        self._surfaces = Surfaces(problem=self._problem)
+        self._complements = Cells(problem=self._problem)
         self._geometry.update_pointers(cells, surfaces, self)
 
     def remove_duplicate_surfaces(self, deleting_dict):
